@@ -234,6 +234,24 @@ class Fn:
                     k[l] = ('V', rv['adt'], rv['vidx'], 'unit')
                 elif rv['k'] == 'ref' and not rv['a'].get('p') and isinstance(k.get(rv['a'].get('l')), tuple) and k[rv['a']['l']][0] == 'V':
                     k[l] = ('&',) + k[rv['a']['l']]
+                elif rv['k'] == 'agg' and rv.get('ak') == 'tuple':
+                    # a tuple of known and unknown parts (`(entry.resolve(body), entry.is_spent())` destructured further on)
+                    parts = []
+                    for op in rv.get('ops') or []:
+                        if op.get('o') == 'const' and op.get('v') is not None and op.get('t') in _PS_SCALARS:
+                            parts.append(op['v'])
+                        elif 'l' in op and not op.get('p') and op['l'] in k:
+                            parts.append(k[op['l']])
+                        else:
+                            parts.append(None)
+                    if any(x is not None for x in parts):
+                        k[l] = ('T',) + tuple(parts)
+                    else:
+                        k.pop(l, None)
+                elif rv['k'] == 'use' and 'l' in rv['a'] and len(rv['a'].get('p') or []) == 1 and isinstance(k.get(rv['a']['l']), tuple) \
+                        and k[rv['a']['l']][0] == 'T' and re.match(r'^\.\d+$', rv['a']['p'][0]) and int(rv['a']['p'][0][1:]) + 1 < len(k[rv['a']['l']]) \
+                        and k[rv['a']['l']][int(rv['a']['p'][0][1:]) + 1] is not None:
+                    k[l] = k[rv['a']['l']][int(rv['a']['p'][0][1:]) + 1]
                 elif rv['k'] == 'discr' and not rv['a'].get('p') and isinstance(k.get(rv['a'].get('l')), tuple):
                     k[l] = k[rv['a']['l']][2]
                 else:
@@ -605,8 +623,10 @@ def origins(fn, operand, extra_identity=(), through_clone=False, through_casts=F
                 continue
             # `expr?`: the Continue payload is the Ok/Some payload of the operand
             if suffix[:2] == ['as Continue', '.0'] and call_matches(t, ['core::ops::try_trait::Try::branch']):
+                # (`Some` when the operand is an Option)
+                opt_ = ((t.get('targs') or [''])[0] or t['args'][0].get('t') or '').startswith('core::option::Option<')
                 out += origins(fn, t['args'][0], extra_identity, through_clone, through_casts, _seen,
-                               ['as Ok', '.0'] + suffix[2:], _steps + [('try', bb)])
+                               ['as Some' if opt_ else 'as Ok', '.0'] + suffix[2:], _steps + [('try', bb)])
                 continue
             # ... and the Break payload is its residual: for a Result, Break(Err(e)) where e is the operand's Err payload
             if suffix[:4] == ['as Break', '.0', 'as Err', '.0'] and call_matches(t, ['core::ops::try_trait::Try::branch']):
@@ -719,23 +739,43 @@ def flows_to(fn, local, extra_identity=(), through_clone=False, _seen=None, whol
     if _seen is None:
         _seen = set()
     sinks = []
-    work = [(local, [local])]
+    # (local, via, fp): the value sits in `local` at field path fp — non-empty once it was put into a tuple, whose other fields are
+    # somebody else's (`(entry.resolve(body), entry.is_spent())`, destructured further on)
+    work = [(local, [local], [])]
     while work:
-        l, via = work.pop()
-        if l in _seen:
+        l, via, fp = work.pop()
+        if (l, tuple(fp)) in _seen:
             continue
-        _seen.add(l)
-        if l == 0:
+        _seen.add((l, tuple(fp)))
+        if l == 0 and not fp:
             sinks.append(('return', via))
         for u in fn.uses(l):
             kind = u[0]
+            proj = u[5] if kind == 'stmt' else (u[4] if kind == 'callarg' else [])
+            nfp = []
+            if fp:
+                if kind in ('drop', 'switch', 'yield', 'callfn', 'assert'):
+                    if kind == 'drop':
+                        sinks.append(('drop', u[1], via))
+                    elif kind == 'yield':
+                        sinks.append(('yield', u[1], via))
+                    continue
+                if proj[:len(fp)] == fp:
+                    proj = proj[len(fp):]        # reads our field (or a part of it)
+                elif fp[:len(proj)] == proj:
+                    nfp = fp[len(proj):]         # moves the tuple (or an outer part of it) on, our value still inside
+                    proj = []
+                else:
+                    continue                     # another field
             if kind == 'stmt':
-                _, bb, idx, s, role, proj = u
+                _, bb, idx, s, role, _p = u
                 if whole_only and any(tok != '*' for tok in proj):
                     continue
                 d = s['d']
                 rv = s['rv']
                 if rv['k'] in ('use', 'ref', 'rawptr', 'cast', 'agg', 'discr', 'unop', 'binop'):
+                    if nfp and rv['k'] not in ('use', 'ref', 'rawptr'):
+                        nfp = []   # wrapped into something else: from here on the whole value is followed, as before
                     if rv['k'] in ('discr',):
                         sinks.append(('discr', bb, s, via))
                         continue
@@ -743,16 +783,23 @@ def flows_to(fn, local, extra_identity=(), through_clone=False, _seen=None, whol
                         sinks.append(('op', bb, s, via))
                     if d['p'] and d['l'] != l:
                         sinks.append(('field', bb, s, via))
-                    work.append((d['l'], via + [d['l']]))
+                    if rv['k'] == 'agg' and rv.get('ak') == 'tuple' and role.startswith('op') and not d['p']:
+                        work.append((d['l'], via + [d['l']], ['.' + role[2:]]))
+                    else:
+                        work.append((d['l'], via + [d['l']], nfp))
             elif kind == 'callarg':
-                _, bb, t, k, proj = u
+                _, bb, t, k, _p = u
                 if whole_only and any(tok != '*' for tok in proj):
+                    continue
+                if nfp:
+                    # handed to a call inside its tuple (the argument tuple of a closure call)
+                    sinks.append(('callarg', bb, t, k, via))
                     continue
                 idk = is_identity_call(t, extra_identity)
                 if idk is None and through_clone and call_matches(t, ['core::clone::Clone::clone']):
                     idk = 0
                 if idk is not None and idk == k:
-                    work.append((t['d']['l'], via + [t['d']['l']]))
+                    work.append((t['d']['l'], via + [t['d']['l']], []))
                 else:
                     sinks.append(('callarg', bb, t, k, via))
             elif kind == 'drop':
